@@ -219,6 +219,15 @@ const maxStates = 40000
 // instruction satisfying target without first executing an instruction
 // satisfying avoid. target is tested before avoid. cut edges are never taken.
 func (p *Prog) reachCut(fn *ssa.Function, from ssa.Instruction, target, avoid ipred, cut map[edge]bool) (ssa.Instruction, []*ssa.BasicBlock, bool) {
+	return p.reachGen(fn, from, nil, target, avoid, cut)
+}
+
+// reachFromBlock starts the search at the first instruction of block b.
+func (p *Prog) reachFromBlock(fn *ssa.Function, b *ssa.BasicBlock, target, avoid ipred, cut map[edge]bool) (ssa.Instruction, []*ssa.BasicBlock, bool) {
+	return p.reachGen(fn, nil, b, target, avoid, cut)
+}
+
+func (p *Prog) reachGen(fn *ssa.Function, from ssa.Instruction, startBlock *ssa.BasicBlock, target, avoid ipred, cut map[edge]bool) (ssa.Instruction, []*ssa.BasicBlock, bool) {
 	if avoid == nil {
 		avoid = never
 	}
@@ -232,7 +241,12 @@ func (p *Prog) reachCut(fn *ssa.Function, from ssa.Instruction, target, avoid ip
 		parent *state
 	}
 	var st *state
-	if from == nil {
+	if startBlock != nil {
+		st = &state{b: startBlock, f: facts{}}
+		if len(startBlock.Instrs) > 0 {
+			st.f = p.factsAt(startBlock.Instrs[0])
+		}
+	} else if from == nil {
 		st = &state{b: fn.Blocks[0], f: facts{}}
 	} else {
 		st = &state{b: from.Block(), i: p.idx[from] + 1, f: p.factsAt(from)}
